@@ -35,6 +35,13 @@ CHECK_DEADLOCK FALSE
 """ % (w, n, q, "TRUE" if rebase else "FALSE", "TRUE" if index_assign else "FALSE")
 
 
+HOOK_CFG = """SPECIFICATION TraceSpec
+INVARIANT Done
+POSTCONDITION TraceAccepted
+CHECK_DEADLOCK FALSE
+"""
+
+
 def make_scn(rng, k, nclusters, comp, delay_us):
     ops = []
     cid = 0
@@ -149,8 +156,49 @@ def run(prop, tier):
                                                "trace": pe[:8]})
             shutil.rmtree(s["dir"], ignore_errors=True)
         C.log("[%s] cpus=%d done %.0fs" % (prop, w, time.time() - rep.t0))
+    # 2b. inside the pipeline: the hooked build logs every step of ClusterPipeline (dispatch, take, done, counter, write, address)
+    hooked = C.build("debug", hooked=True)
+    hook_events, hook_scns = [], []
+    for w in settings:
+        scns = []
+        for sd in range(4 if tier == "quick" else 12):
+            k += 1
+            s = make_scn(rng, k, rng.choice([5, 12, 31]), rng.choice(["zstd", "lz4"]), rng.choice([0, 200, 3000]))
+            s["id"] = "h%d" % k
+            s["dir"] = os.path.join(base, s["id"])
+            s["workers_setting"] = w
+            s["trace_hooks"] = True
+            s["read"] = False
+            scns.append(s)
+        prefix = ["taskset", "-c", "0-%d" % (w - 1) if w > 1 else "0"] if w < ncpu else None
+        runs = C.run_scenarios(hooked, [dict(s) for s in scns], "%s_h%d" % (prop, w), timeout=1200, prefix=prefix, max_failures=3, env_extra={"VERIF_SCN_TIMEOUT": "120"})
+        for s in scns:
+            r = runs.get(s["id"], {"events": [], "status": "crash:notrun"})
+            if r["status"] == "skipped":
+                continue
+            fin = next((e for e in r["events"] if e["ev"] == "Finalize"), None)
+            if r["status"] != "ok" or not fin or not fin.get("ok"):
+                rep.violation("%s cpus=%d (hooked build) create %s %s" % (prop, w, r["status"] if r["status"] != "ok" else "failed", P.opsig(s)), {"finalize": fin, "last": r["events"][-3:]})
+                continue
+            dec = jbkdec.decode_file(fin["file"], check_hash=False)
+            pk = next((p_ for p_ in jbkdec.all_packs(dec) if p_["kind"] == "c"), None)
+            evs = [{"ev": "New", "scn": s["id"], "workers": e["workers"], "maxQueue": e["maxQueue"]} for e in r["events"] if e["ev"] == "New"]
+            evs += [{"ev": "Hook", "scn": s["id"], "name": e["name"], "id": e["id"], "a": e["a"], "b": e["b"], "thread": e["thread"]} for e in r["events"] if e["ev"] == "Hook"]
+            if pk is None:
+                rep.violation("%s cpus=%d (hooked build) no content pack decoded %s" % (prop, w, P.opsig(s)), {"violations": dec["violations"][:3]})
+                continue
+            for c in pk["clusters"]:
+                evs.append({"ev": "Tail", "scn": s["id"], "id": c["id"], "tail": c["tailPos"]})
+            evs.append({"ev": "Done", "scn": s["id"], "clusterCount": pk["clusterCount"]})
+            hook_events += evs
+            hook_scns.append(s)
+            shutil.rmtree(s["dir"], ignore_errors=True)
+    C.log("[%s] hooked runs done %.0fs (%d events)" % (prop, time.time() - rep.t0, len(hook_events)))
     # 3. code -> spec
     import p_entries as E
+    E.validate_all(rep, prop, hook_scns, hook_events, "PipelineHooksTrace", HOOK_CFG, sigf=lambda s: "hooks workers=%s delay=%s clusters~%d" % (s.get("workers_setting"), s.get("delay_max_us"), len(s["ops"])))
+    rep.cov["hooked_runs"] = len(hook_scns)
+    rep.cov["hook_events"] = len(hook_events)
     E.validate_all(rep, prop, all_scns, pipe_events, "ClusterPipelineTrace", PIPE_CFG, sigf=lambda s: "workers=%s delay=%s clusters~%d" % (s.get("workers_setting"), s.get("delay_max_us"), len(s["ops"])))
     E.validate_all(rep, prop, all_scns, content_events, "ContentPackTrace", P.trace_cfg(False), sigf=lambda s: "workers=%s %s" % (s.get("workers_setting"), P.opsig(s)))
     rep.cov["traces_validated_against_impl"] = nscn
